@@ -184,6 +184,21 @@ def quorum_ack(cx):
             callees |= {sp.split("::")[-1] for sp, s in cx.prog.calls_out[k] if s.kind == "call"}
     ok = "get_mut" in callees and not ({"entry", "or_insert", "or_default", "or_insert_with"} & callees) and "insert" in callees
     cx.check(ok, "recv_ack", "recv_ack only adds the acknowledging id to the set of an existing pending request (callees: %s)" % sorted(callees))
+    # ... of the request the acknowledgement was sent for: every lookup into the pending-read table inside recv_ack is
+    # keyed by the context that came with the acknowledgement, never by something read from the queue (an echo of an
+    # older, already answered request says nothing about leadership after a younger request was issued)
+    nk = 0
+    for sp, s in cx.prog.calls_out[ra.key]:
+        if s.kind != "call" or sp.split("::")[-1] not in ("get_mut", "get", "entry", "remove", "get_key_value"):
+            continue
+        a = call_args(cx, s)
+        if len(a) < 2 or not contains(fld("ReadOnly.pending_read_index"), a[0]):
+            continue
+        nk += 1
+        leaves = list(walk(a[1]))
+        okk = any(x[0] == "param" for x in leaves) and not any(x[0] == "field" for x in leaves)
+        cx.check(okk, cx.site_key(s, "ack:key"), "recv_ack credits the acknowledgement to the request named by the received context only (key: %s)" % show(a[1])[:120], s)
+    cx.check(nk >= 1 or not ok, "ack:key:floor", "the pending-read lookup of recv_ack was found")
 
 
 @obligation("READ.drop_on_reset", ["C08"], floor=1, kind="must-pass-through",
